@@ -42,6 +42,7 @@ struct TableDesc {
 	int naux = 0;
 	std::string aux = "plain";         // plain | mixed | quote
 	bool single_order = false, no_type = false, no_comments = false, ext_reversed = false, double_image = false;
+	int image_bitpix = 0;             // 0 | 8 | 16 | 32: integer coefficient image (see TableSpec)
 
 	uint32_t ndim() const { return (uint32_t)naxes.size(); }
 	uint64_t ncoeffs() const { uint64_t n = 1; for (auto a : naxes) n *= a; return naxes.empty() ? 0 : n; }
